@@ -279,6 +279,10 @@ func RunChild(p *Prop, tier string, seed int64, shard, nshards int, build, dir s
 	g := &Gen{Tier: tier, Seed: seed, Shard: shard, NShards: nshards, Build: build,
 		Rng: SubRng(seed, p.ID, fmt.Sprint(shard)), prop: p, st: st, slot: sl, from: envInt("VERIF_FROM", 0)}
 	t0 := time.Now()
+	if n := ProcsOf(shard); n > 0 && !p.OwnProcs {
+		runtime.GOMAXPROCS(n)
+		st.res.Counters[fmt.Sprintf("shard processes run with GOMAXPROCS=%d", n)]++
+	}
 	go stallMonitor(p, g, tier, sl, st, base, t0)
 	if shard%4 == 3 {
 		// GC timing as a workload dimension: every fourth shard collects garbage every 20 ms, so that pools are
